@@ -133,6 +133,11 @@ func (r *Run) WriteEvidence(ev *Evidence) error {
 	ev.WallS = time.Since(r.Start).Seconds()
 	ev.Violations = len(r.violations)
 	dir := filepath.Join(r.Root, "evidence")
+	if r.Opt.Repo != "" {
+		// a run against another tree (--repo: scratch worktrees with seeded changes) must not
+		// overwrite the evidence of /repo itself
+		dir = filepath.Join(r.Root, "work", "evidence-other-tree")
+	}
 	os.MkdirAll(dir, 0o755)
 	b, err := json.MarshalIndent(ev, "", " ")
 	if err != nil {
